@@ -53,7 +53,9 @@ func prepare(c *sim.Cluster, ns, name string, strategy edsv1.ExtendedDaemonSetSp
 	for i := 0; i < len(word); i++ {
 		if i > 0 {
 			l := word[i]
-			_ = c.EditEDS(ns, name, func(x *edsv1.ExtendedDaemonSet) { x.Spec.Template = withTolerations(gen.LetterTemplate(l), prepTolerations) })
+			_ = c.EditEDS(ns, name, func(x *edsv1.ExtendedDaemonSet) {
+				x.Spec.Template = withTolerations(gen.LetterTemplate(l), prepTolerations)
+			})
 		}
 		for k := 0; k < 4; k++ {
 			c.Reconcile(sim.ActorEDS, ns, name)
@@ -172,12 +174,13 @@ func (p *Prep) addPod(node string, letter byte, st PodState, age time.Duration) 
 		ready(false)
 	case PSTerminating:
 		ready(true)
-		ts := metav1.NewTime(now.Add(-5 * time.Second))
+		// as the API server writes it: request time + grace period, i.e. still in the future
+		ts := metav1.NewTime(now.Add(time.Duration(grace)*time.Second - 5*time.Second))
 		pod.DeletionTimestamp, pod.DeletionGracePeriodSeconds = &ts, &grace
 		pod.Finalizers = []string{"verif/keep"} // the tracker refuses a deletionTimestamp without finalizer
 	case PSTerminatingUnready:
 		ready(false)
-		ts := metav1.NewTime(now.Add(-3 * time.Second))
+		ts := metav1.NewTime(now.Add(time.Duration(grace)*time.Second - 3*time.Second))
 		pod.DeletionTimestamp, pod.DeletionGracePeriodSeconds = &ts, &grace
 		pod.Finalizers = []string{"verif/keep"}
 	case PSTerminatingPastGrace:
